@@ -7,7 +7,8 @@
 EXTENDS Naturals, Sequences, FiniteSets, TLC
 CONSTANTS Peers,        \* peer addresses (a peer may connect again from the same address)
           Tls,          \* BOOLEAN
-          MaxSocks, MaxOps
+          MaxSocks, MaxOps,
+          ClientOps     \* BOOLEAN: include the client's actions (FALSE: server histories only, which can then be longer)
 VARIABLES next, open, listen, backlog, cx, ix, copen, cconn, h
 vars == <<next, open, listen, backlog, cx, ix, copen, cconn, h>>
 None == 0
@@ -20,7 +21,8 @@ Open ==            \* Server.reopen(): close() - the listen socket and every con
   /\ next <= MaxSocks
   /\ listen' = next /\ next' = next + 1 /\ open' = (open \ Held) \cup {next}
   /\ backlog' = <<>>                                   \* what waited on the old listen socket is gone with it
-  /\ UNCHANGED <<cx, ix, copen, cconn>> /\ Log("open", <<>>)
+  /\ cx' = [p \in Peers |-> None]                      \* a closed connection cannot finish its handshake: forgotten
+  /\ UNCHANGED <<ix, copen, cconn>> /\ Log("open", <<>>)
 PeerConnects(p) == \* a peer's connection is completed by the kernel and waits in the accept queue (socket made at accept)
   /\ listen # None /\ Len(backlog) < 2
   /\ backlog' = Append(backlog, p) /\ UNCHANGED <<next, open, listen, cx, ix, copen, cconn>> /\ Log("peer", <<p>>)
@@ -51,8 +53,8 @@ Remove(p) ==       \* Server.removeIx(ca): the application drops a connection (e
   /\ UNCHANGED <<next, listen, backlog, cx, copen, cconn>> /\ Log("remove", <<p>>)
 Close ==           \* Server.close(): the listen socket and every accepted connection socket are closed
   /\ open' = open \ Held
-  /\ listen' = None /\ backlog' = <<>>
-  /\ UNCHANGED <<next, cx, ix, copen, cconn>> /\ Log("close", <<>>)
+  /\ listen' = None /\ backlog' = <<>> /\ cx' = [p \in Peers |-> None]
+  /\ UNCHANGED <<next, ix, copen, cconn>> /\ Log("close", <<>>)
 \* ---- client
 COpen ==           \* Client.reopen(): close the current socket if any, make a new one
   /\ next <= MaxSocks
@@ -75,10 +77,10 @@ CClose ==
   /\ UNCHANGED <<next, listen, backlog, cx, ix>> /\ Log("cclose", <<>>)
 HsChoices == [Peers -> {"ok", "block", "abort"}]
 Next == /\ Len(h) < MaxOps
-        /\ \/ Open \/ Close \/ COpen \/ CClose \/ CTimeout
+        /\ \/ Open \/ Close \/ (ClientOps /\ (COpen \/ CClose \/ CTimeout))
            \/ \E p \in Peers : PeerConnects(p) \/ Remove(p)
            \/ \E hs \in (IF Tls THEN HsChoices ELSE {[p \in Peers |-> "ok"]}) : ServiceConnects(hs)
-           \/ \E r \in {"ok", "wait", "refused"} : CConnect(r)
+           \/ (ClientOps /\ \E r \in {"ok", "wait", "refused"} : CConnect(r))
 Spec == Init /\ [][Next]_vars
 -----------------------------------------------------------------------------
 MCView == <<next, open, listen, backlog, cx, ix, copen, cconn, Len(h)>>
